@@ -595,6 +595,89 @@ def run_time(ck):
                             "non-trivial = written from a timestamp more than a second away from the epoch; distinct by text. ")
 
 
+OHEADER = ("From Coq Require Import List ZArith NArith Bool String Uint63.\n"
+           "From Qryn Require Import model.Decode model.LokiTime model.ReqOpts.\n"
+           "Import ListNotations.\nOpen Scope string_scope.\nOpen Scope Z_scope.\n")
+
+
+def run_reqopts(ck):
+    """the request options in front of the decoders (X-Ttl-Days through WithOverallContextMiddleware, the precision parameter and
+    the whole Influx route through PushInfluxV2) against model/ReqOpts.v"""
+    ok, out = ck.coq_make(["model/ReqOpts.vo"])
+    if not ok:
+        ck.obligation("model/ReqOpts.v builds", False, out[-1500:])
+        return
+    env = {"C03_MODE": "reqopts"}
+    cases = []
+    corpus = os.path.join(ROOT, "corpus", PID, "reqopts.jsonl")
+    srcs = [("corpus", corpus, 1000000)] if os.path.exists(corpus) else []
+    if ck.replay:
+        rp = json.load(open(ck.replay))
+        if "reqopts_case" in rp:
+            p = os.path.join(ck.work, "reqopts_replay_in.jsonl")
+            open(p, "w").write(json.dumps({k: v for k, v in rp["reqopts_case"].items() if k != "coq"}) + "\n")
+            srcs.append(("replay", p, 2000000))
+    for tag, path, base in srcs:
+        outp = os.path.join(ck.work, "reqopts_%s_out.jsonl" % tag)
+        rc, out = ck.go_run("decode", ["--cases", path, "--out", outp], env_extra=env)
+        ck.obligation("request-option %s cases re-run" % tag, rc == 0, out[-1500:])
+        if rc == 0:
+            cs = [json.loads(l) for l in open(outp) if l.strip()]
+            for i, c in enumerate(cs):
+                c["id"] = base + i
+                c["coq"] = re.sub(r"^OC \d+ ", "OC %d " % c["id"], c["coq"])
+                c["class"] = tag + ":" + c["class"]
+            cases += cs
+    n = ck.n(1000, 30000)
+    outp = os.path.join(ck.work, "reqopts.jsonl")
+    rc, out = ck.go_run("decode", ["--seed", ck.seed, "--n", n, "--out", outp], timeout=600, env_extra=env)
+    if rc != 0:
+        ck.obligation("harness decode (request options) ran", False, out[-1500:])
+        return
+    cases += [json.loads(l) for l in open(outp) if l.strip()]
+    byid = {c["id"]: c for c in cases}
+    mism, viol = [], []
+    for k in range(0, len(cases), 3000):
+        m, v, out = eval_two(ck, "C03_reqopts_%d" % (k // 3000), OHEADER, "ocase", cases[k:k + 3000], "oc_check_all")
+        if m is None:
+            ck.obligation("request-option cases evaluated inside Coq", False, out[-2500:])
+            return
+        mism += m
+        viol += v
+    viol = sorted(set(viol) | {c["id"] for c in cases if c.get("panic")})
+    nroute = sum(1 for c in cases if c["influx"])
+    nrows = sum(1 for c in cases if c["influx"] and c["has_want_rows"])
+    ck.obligation("request options: model ReqOpts (ttl_of_header, precision_of_query, influx_request) = WithOverallContextMiddleware / PushInfluxV2 on %d requests (%d through the whole Influx route: status, context values, stored rows)" % (len(cases), nroute),
+                  not [i for i in mism if i not in viol], "mismatching case ids: %s" % mism[:10])
+    ck.obligation("request options: a header written from a number gives that TTL, a precision written as a unit gives that unit, and the Influx route stores one row per line with the line's timestamp in that unit under that TTL (%d requests with expected rows); a refused request stores nothing" % nrows,
+                  not viol, "violating case ids: %s" % viol[:10])
+    ck.obligation("request options: the generator reaches every class (header absent / number / out of range / other text; precision absent / unit / other text; lines with their own __ttl_days__ tag)",
+                  all(any(t in c["class"] for c in cases) for t in ("hdr-absent", "hdr-number", "hdr-out-of-range", "hdr-other-text", "precision-absent", "precision-unit", "precision-other-text"))
+                  and any(c["influx"] and any(t["k"] == "__ttl_days__" for l in c["lines"] for t in l["tags"]) for c in cases), "")
+    if viol:
+        worst = min((byid[i] for i in viol), key=lambda c: (len(c.get("lines") or []), len(json.dumps(c["hdr"])) + len(json.dumps(c["query"]))))
+        ck.violation({"property": PID, "kind": "a request option is not read as written (X-Ttl-Days header / precision parameter), or the rows stored under it are not the lines' own",
+                      "class": worst["class"], "reqopts_case": {k: v for k, v in worst.items() if k != "coq"},
+                      "cases_with_this_failure": len(viol),
+                      "explanation": "oc_spec_violation (coq/model/ReqOpts.v): want_ttl / want_prec / want_rows are what the generator wrote the header text, the precision text and the lines from; obs_ttl / obs_prec are TTL_DAYS / precision of the request context after the real middleware / route, rows the (timestamp, TTL) of the sample rows the route handed to its samples service",
+                      "replay": "bin/check C03 --replay <this file>"})
+    elif mism:
+        worst = byid[mism[0]]
+        ck.violation({"property": PID, "kind": "model/implementation disagree on a request option", "class": worst["class"],
+                      "reqopts_case": {k: v for k, v in worst.items() if k != "coq"}, "broken": "correspondence ReqOpts vs WithOverallContextMiddleware / PushInfluxV2"}, no_input=True)
+    hist = {}
+    for c in cases:
+        key = "reqopts/" + c["class"] + ("/status %d" % c["status"] if c["influx"] else "")
+        hist[key] = hist.get(key, 0) + 1
+    ck.extra["request_option_distribution"] = hist
+    ck.coverage["evaluations"] += len(cases)
+    ck.coverage["distinct_nontrivial"] += len({json.dumps([c["hdr"], c["query"], c["lines"]]) for c in cases if c["influx"] and c["has_want_rows"] and c["want_ttl"] > 0})
+    ck.coverage["rule"] += ("Request options: X-Ttl-Days texts (absent, decimal numbers 0..65535 with leading zeros, digits out of range, signed / padded / hex / underscore / unicode-digit texts) through the real middleware; "
+                            "one request in three through the real Influx route with a precision text (absent, the five spellings, other texts) and 1-3 lines; non-trivial = accepted route request with a TTL > 0 and expected rows; distinct by texts and lines. ")
+    ck.add_samples([{k: v for k, v in c.items() if k != "coq"} for c in cases if c["influx"] and c["has_want_rows"] and c["want_ttl"] > 0][:1])
+
+
+
 NHEADER = ("From Coq Require Import List ZArith NArith Bool String.\n"
            "From Qryn Require Import model.Ndjson.\n"
            "Import ListNotations.\nOpen Scope Z_scope.\n")
@@ -695,7 +778,7 @@ def run(ck):
         return
     # the three correspondences (bodies, label strings, timestamp texts) are evaluated side by side
     from concurrent.futures import ThreadPoolExecutor
-    with ThreadPoolExecutor(max_workers=4) as ex:
-        fs = [ex.submit(run_correspondence, ck, consts), ex.submit(run_labels, ck), ex.submit(run_time, ck), ex.submit(run_ndjson, ck)]
+    with ThreadPoolExecutor(max_workers=5) as ex:
+        fs = [ex.submit(run_correspondence, ck, consts), ex.submit(run_labels, ck), ex.submit(run_time, ck), ex.submit(run_ndjson, ck), ex.submit(run_reqopts, ck)]
         for f in fs:
             f.result()
